@@ -566,3 +566,34 @@ pub fn oracle_c10_nb(op: &str, outs: &[String]) -> String {
     }
     "ok".into()
 }
+
+
+/// device-level ops inside a MAC-level suite: run on the real front-end (async or non-blocking
+/// Device with the scripted radio) and judged by the generic "every call returns" oracle; the
+/// step-by-step comparison with the Lean device model is what ties them to the property's model
+pub fn eval_dev_any(op: &str) -> Option<String> {
+    match op.split_whitespace().nth(1) {
+        Some("adev") => Some(eval(op, oracle_c04_dev)),
+        Some("nbdev") => Some(eval_nb(op, oracle_c04_dev)),
+        _ => None,
+    }
+}
+
+/// the device-level classes every MAC property's suite carries: random Class A/C histories on the
+/// async front-end, random histories on the non-blocking front-end, OTAA joins
+pub fn add_dev_classes(suite: &str, rng: &mut Rng, sink: &mut Sink, thorough: bool, eval: fn(&str) -> String) {
+    for region in REGIONS {
+        for _ in 0..(if thorough { 300 } else { 20 }) {
+            let op = gen_random_dev_history(suite, region, rng);
+            sink.case(&op, &eval(&op), "device-random", true);
+        }
+        for _ in 0..(if thorough { 300 } else { 20 }) {
+            let op = gen_nb_random_history(suite, region, rng);
+            sink.case(&op, &eval(&op), "nb-random", true);
+        }
+        for i in 0..(if thorough { 100 } else { 8 }) {
+            let op = gen_join_history(suite, region, rng, i % 2 == 0);
+            sink.case(&op, &eval(&op), "device-join", true);
+        }
+    }
+}
